@@ -206,6 +206,82 @@ def _check_history(case, sampler, ref, params, bad):
                         bad('sampler-current', 'sampler.current_positions differs from the chains', {'chain': ci})
     except Exception as e:
         bad('sampler-stack-raises', 'sampler-level arrays raised %r' % (e,), None)
+    try:
+        for key, text, extra in _access_paths(sampler):
+            bad(key, text, extra)
+    except Exception as e:
+        bad('sampler-stack-raises', 'comparing the access paths raised %r' % (e,), None)
+
+
+def _fields_equal(a, b):
+    """Two structured arrays / dicts of arrays hold the same values field by field (NaN = NaN)."""
+    na = a.dtype.names if isinstance(a, numpy.ndarray) else sorted(a)
+    nb = b.dtype.names if isinstance(b, numpy.ndarray) else sorted(b)
+    if na is None or nb is None:
+        x, y = numpy.asarray(a), numpy.asarray(b)
+        return x.shape == y.shape and all(_eq(u, v) for u, v in zip(x.ravel(), y.ravel()))
+    if sorted(na) != sorted(nb):
+        return False
+    for f in na:
+        x, y = numpy.asarray(a[f]), numpy.asarray(b[f])
+        if x.shape != y.shape or not all(_eq(u, v) for u, v in zip(x.ravel(), y.ravel())):
+            return False
+    return True
+
+
+def _access_paths(sampler):
+    """Every array the sampler and its chains hand out is the same data as the per-level arrays:
+    positions / stats / acceptance / blobs (level -> tempered chain -> sampler), current_* (level ->
+    tempered chain -> sampler), swap history (chain -> sampler).  Yields (key, text, extra)."""
+    chains = list(sampler.chains)
+    if not chains or chains[0].iteration == 0:
+        return
+    ispt = isinstance(chains[0], ParallelTemperedChain)
+    retained = len(chains[0]) > 0
+    hasblobs = bool(I.levels_of(chains[0])[0].hasblobs)
+    fields = ('positions', 'stats', 'acceptance') + (('blobs',) if hasblobs else ())
+    if retained:
+        for f in fields:
+            S = getattr(sampler, f)
+            for ci, ch in enumerate(chains):
+                C = getattr(ch, f)
+                if ispt:
+                    for t, l in enumerate(I.levels_of(ch)):
+                        if not _fields_equal(C[t], getattr(l, f)):
+                            yield ('chain-stack:' + f, 'ParallelTemperedChain.%s[%d] differs from the level\'s own array' % (f, t),
+                                   {'chain': ci, 'level': t})
+                            break
+                sl = S[:, ci] if ispt else S[ci]
+                if not _fields_equal(sl, C):
+                    yield ('sampler-stack:' + f, 'sampler.%s differs from the chain\'s array' % f, {'chain': ci})
+                    break
+    for f_chain, f_smp in (('current_position', 'current_positions'), ('current_stats', 'current_stats')) + \
+            ((('current_blob', 'current_blobs'),) if hasblobs else ()):
+        S = getattr(sampler, f_smp)
+        for ci, ch in enumerate(chains):
+            C = getattr(ch, f_chain)
+            if ispt:
+                for t, l in enumerate(I.levels_of(ch)):
+                    L = getattr(l, f_chain)
+                    if not all(_eq(numpy.asarray(C[k])[t], L[k]) for k in L):
+                        yield ('chain-current:' + f_chain, 'ParallelTemperedChain.%s differs from level %d' % (f_chain, t),
+                               {'chain': ci, 'level': t})
+                        break
+            if not all(_fields_equal(numpy.asarray(S[k])[..., ci], numpy.asarray(C[k])) for k in C):
+                yield ('sampler-current:' + f_smp, 'sampler.%s differs from the chain' % f_smp, {'chain': ci})
+                break
+    if ispt and chains[0].ntemps > 1 and retained:
+        for f in ('temperature_swaps', 'temperature_acceptance'):
+            try:
+                S = getattr(sampler, f)
+            except ValueError:
+                continue
+            for ci, ch in enumerate(chains):
+                if not _fields_equal(S[:, ci], getattr(ch, f)):
+                    yield ('sampler-stack:' + f, 'sampler.%s differs from the chain\'s array' % f, {'chain': ci})
+                    break
+    if sampler.niterations != chains[0].iteration:
+        yield ('sampler-niterations', 'sampler.niterations differs from the chains\' iteration', None)
 
 
 def gen_cases(seed, n, td_every=5, **kw):
